@@ -241,8 +241,9 @@ Record config := mkCfg {
   price_limit : N; price_bump : N;
   account_slots : N; global_slots : N; account_queue : N; global_queue : N;
   no_locals : bool; cfg_locals : list N;
-  gapfix : bool   (* does the working tree carry fixes/C20_pending_gap_after_partial_reinject.diff?
-                     (detected by the harness on every run; false = the code as it is today) *)
+  gapfix : bool   (* does the working tree carry the repair of demoteUnexecutables
+                     (fixes/C20_pending_gap_after_partial_reinject.diff, in /repo as commit c78f52f)?
+                     Detected by the harness on every run; false = the code before that commit. *)
 }.
 
 Record pool := mkPool {
